@@ -62,8 +62,7 @@ class WelchTTest(BaseStatisticalTest):
             a=X_ref,
             b=X,
             equal_var=False,
-            alternative=kwargs.get("alternative", "two-sided"),
-            **kwargs,
+            **{"alternative": "two-sided", **kwargs},
         )
         test = StatisticalResult(
             statistic=test.statistic,
